@@ -24,6 +24,12 @@ structure D where
   fst : Id → FutState := fun _ => .idle
   /-- wake count of the future's waker when it was last polled -/
   seen : Id → Nat := fun _ => 0
+  /-- epoll's ready list: registered descriptors that were found ready and not yet reported, in the order
+      they were queued (wake-up order, resp. `epoll_ctl` order when ready at ADD / MOD time) -/
+  rdl : List Nat := []
+  /-- registered descriptors, most recently ADDed first = the order in which one file's wait queue wakes
+      the epoll items of its descriptors -/
+  wq : List Nat := []
   /-- the model hit a Rust panic / impossible event: every further line of the case reports it -/
   fault : Option String := none
 
@@ -104,9 +110,44 @@ def showFault : Fault → String
 
 def D.ops (d : D) : Ops Os := pollOpsFor d.files
 
+/-- polling driver: queue the descriptors that are armed and ready but not yet on epoll's ready list,
+    visiting them in the given order -/
+def D.sweep (d : D) (order : List Nat) : D :=
+  if d.iour then d else
+  { d with rdl := order.foldl (fun rdl fd =>
+      if (firedOf d.ps fd).isSome && !rdl.contains fd then rdl ++ [fd] else rdl) d.rdl }
+
+/-- polling driver, after a driver call that touched the registrations of `touched` (in that order):
+    EPOLL_CTL_DEL drops an item, EPOLL_CTL_ADD puts it in front of its file's wait queue, ADD / MOD of a
+    ready descriptor queues it on the ready list -/
+def D.syncEpoll (d : D) (before : Nat → Option Event) (touched : List Nat) : D :=
+  if d.iour then d else
+  let order := (touched ++ d.chans).eraseDups
+  let gone := d.chans.filter fun fd => (before fd).isSome && (d.ps.epoll fd).isNone
+  let added := order.filter fun fd => (before fd).isNone && (d.ps.epoll fd).isSome
+  let wq := added.foldl (fun wq fd => fd :: wq.erase fd) (d.wq.filter (fun fd => !gone.contains fd))
+  let d1 := { d with wq := wq, rdl := d.rdl.filter (fun fd => !gone.contains fd) }
+  -- only the descriptors whose registration this call (re)wrote can newly enter the ready list
+  d1.sweep touched
+
+/-- `epoll_wait`: walk the ready list; an item that is still ready is reported (up to the buffer size) and
+    leaves the list, one that is not ready any more just leaves it -/
+def D.harvest (d : D) : List Nat → Nat → List Fired × List Nat
+  | [], _ => ([], [])
+  | fd :: rest, room =>
+    match firedOf d.ps fd with
+    | none => d.harvest rest room
+    | some f =>
+      if room = 0 then
+        let (fs, keep) := d.harvest rest 0
+        (fs, fd :: keep)
+      else
+        let (fs, keep) := d.harvest rest (room - 1)
+        (f :: fs, keep)
+
 /-- the kernel after the harness touched a channel: armed io_uring requests are retried -/
 def D.kick (d : D) : D :=
-  if !d.iour then d else
+  if !d.iour then d.sweep d.wq else
   let (os, armed, cs) := retry d.os d.armed
   { d with os := os, armed := armed, ring := d.ring.enter ⟨0, cs⟩ }
 
@@ -114,6 +155,17 @@ def D.kick (d : D) : D :=
 def D.enterAll (d : D) (sq : List Sqe) : D × Enter :=
   let (os, armed, cs) := issue d.os d.armed sq
   ({ d with os := os, armed := armed }, ⟨sq.length, cs⟩)
+
+def D.hasDup (d : D) : Bool := d.chans.any fun c => d.getOs.alias c != c
+
+def D.pollSplit (d : D) (t : Bool) : List Fired → D × String
+  | [] => (d, "ok")
+  | f :: rest =>
+    let before := d.ps.epoll
+    match poll d.ops d.ps t [f] with
+    | .error e => ({ d with fault := some (showFault e) }, "fault")
+    | .ok (s, .err e) => (({ d with ps := s } : D).syncEpoll before [f.fd], s!"err:{e}")
+    | .ok (s, _) => D.pollSplit (({ d with ps := s } : D).syncEpoll before [f.fd]) t rest
 
 def D.pollOnce (d : D) (timeoutIsSome : Bool) : D × String :=
   if d.iour then
@@ -128,12 +180,18 @@ def D.pollOnce (d : D) (timeoutIsSome : Bool) : D × String :=
       let (d2, e2) := d1.enterAll sqAtSubmit
       ({ d2 with ring := (r0.poll [e1] e2).1 }, "ok")
   else
-    let fired := (firedNow d.ps d.chans).take d.cap
+    let (fired, keep) := d.harvest d.rdl d.cap
+    let before := d.ps.epoll
+    let touched := fired.map (·.fd)
+    -- With several descriptors for one kernel object the readiness a descriptor has when `poll_one` re-arms
+    -- it (EPOLL_CTL_MOD queues a ready item at once) can differ from its readiness at the end of the call:
+    -- the events are then fed to the driver model one by one.
+    if d.hasDup && fired.length > 1 then D.pollSplit { d with rdl := keep } timeoutIsSome fired else
     match poll d.ops d.ps timeoutIsSome fired with
     | .error f => ({ d with fault := some (showFault f) }, "fault")
-    | .ok (s, .ok) => ({ d with ps := s }, "ok")
-    | .ok (s, .timedOut) => ({ d with ps := s }, "timeout")
-    | .ok (s, .err e) => ({ d with ps := s }, s!"err:{e}")
+    | .ok (s, .ok) => (({ d with ps := s, rdl := keep } : D).syncEpoll before touched, "ok")
+    | .ok (s, .timedOut) => (({ d with ps := s, rdl := keep } : D).syncEpoll before touched, "timeout")
+    | .ok (s, .err e) => (({ d with ps := s, rdl := keep } : D).syncEpoll before touched, s!"err:{e}")
 
 def D.settle (d : D) : Nat → D
   | 0 => d
@@ -158,8 +216,11 @@ def D.pushRes (d : D) (id : Id) : D × Option Res :=
   else
     let (dec, os') := decide d.ps.world id
     let ps := { d.ps with world := os' }
+    let touched := match dec with
+      | .wait args => args.map (·.1)
+      | _ => []
     match PollDriver.push d.ops ps id dec with
-    | (s, r) => ({ d with ps := s }, r)
+    | (s, r) => (({ d with ps := s } : D).syncEpoll d.ps.epoll touched, r)
 
 /-- `Submit::poll` of the future of operation `id` with its own waker -/
 def D.futPoll (d : D) (id : Id) : D × PollOut :=
@@ -231,6 +292,12 @@ def stepLine (d : D) (w : List String) : D × String :=
   | ["sock", c] => match c.toNat? with
     | some c => ((d.setOs (setChan d.getOs c { kind := .sock })) |> fun d => { d with chans := d.chans ++ [c] }, "ok")
     | none => (d, "bad-op")
+  | ["dup", c, c2] => match c.toNat?, c2.toNat? with
+    | some c, some c2 =>
+      -- a second descriptor for the same kernel object (dup / try_clone)
+      let os := d.getOs
+      ((d.setOs { os with alias := upd os.alias c2 (os.alias c) }) |> fun d => { d with chans := d.chans ++ [c2] }, "ok")
+    | _, _ => (d, "bad-op")
   | ["file", c, h] => match c.toNat?, parseHex h with
     | some c, some b =>
       ((d.setOs (setChan d.getOs c { kind := .file, rbuf := b })) |>
@@ -312,7 +379,7 @@ def stepLine (d : D) (w : List String) : D × String :=
                 else withScan ({ d with ring := d.ring.cancel id }, "true")
       else
         let (s, b) := cancelToken d.ps id
-        withScan ({ d with ps := s }, if b then "true" else "false")
+        withScan (({ d with ps := s } : D).syncEpoll d.ps.epoll ((d.ps.track id).map (·.fd)), if b then "true" else "false")
     | none => (d, "bad-op")
   | ["cancel", k] => match k.toNat? with
     | some id =>
@@ -330,7 +397,8 @@ def stepLine (d : D) (w : List String) : D × String :=
         | (s, some r) =>
           let d1 := { d0 with ps := s }
           withScan (d1, if d.fut then "none" else s!"ready {d1.showDone id r}")
-        | (s, none) => withScan ({ d0 with ps := s }, "none")
+        | (s, none) =>
+          withScan (({ d0 with ps := s } : D).syncEpoll d0.ps.epoll ((d0.ps.track id).map (·.fd)), "none")
     | none => (d, "bad-op")
   | _ => (d, "bad-op")
 
